@@ -60,4 +60,49 @@ def specTyInst : TyInst := fun tns insts cpp icls t =>
 /-- instantiation of a whole module according to the specification -/
 def specInstModule (m : Module) : Except Err (List IDecl) := instModuleWith specTyInst m
 
+
+/-! ### the guard of the agreement theorem `C02_inst_eq_subst_partial` (decidable; evaluated per run by the driver op `c02guard`) -/
+
+/-- a plain identifier as far as `::`-splitting is concerned -/
+def noColon (s : String) : Bool := !s.toList.contains ':'
+
+/-- what `This` denotes: the class handed over for static return types when present, else the current C++ typename -/
+def thisOf (icls cpp : Option Typename) : Option Typename := match icls with | some c => some c | none => cpp
+
+/-- the head of a scope is neither a parameter nor `This` -/
+def headOK (tns : List String) : List String → Bool
+  | [] => true
+  | h :: _ => !tns.contains h && h != "This"
+
+mutual
+  /-- no parameter and no `This` occurs (as a whole unqualified name or as the head of a scope) anywhere in the type -/
+  def closedTy (tns : List String) : CType → Bool
+    | .simple ⟨[], m, []⟩ _ _ => !tns.contains m && m != "This"
+    | .simple ⟨nss, _, _⟩ _ _ => headOK tns nss
+    | .templ nss _ ps _ => headOK tns nss && closedTys tns ps
+  def closedTys (tns : List String) : List CType → Bool
+    | [] => true
+    | p :: ps => closedTy tns p && closedTys tns ps
+end
+
+/-- an argument of a templated type on which the code's first-level rewriting (which looks at the *last* name only)
+    and the specification agree -/
+def firstLevelOK (tns : List String) : CType → Bool
+  | .simple ⟨[], m, []⟩ _ _ => tns.contains m || m != "This"
+  | .simple ⟨nss, m, _⟩ _ _ => !tns.contains m && headOK tns nss
+  | .templ nss m ps _ => !tns.contains m && headOK tns nss && closedTys tns ps
+
+/-- the decidable guard of `C02_inst_eq_subst_partial` (evaluated per run on the generated inputs by the driver op `c02guard`) -/
+def safeTy (tns : List String) (insts : List Typename) (cpp icls : Option Typename) : CType → Bool
+  | .simple ⟨[], n, []⟩ _ _ =>
+    noColon n && (tns.contains n || (if n == "This" then (thisOf icls cpp).isSome else !pyIn "This" n))
+  | .simple ⟨h :: rest, n, []⟩ _ _ =>
+    (h :: (rest ++ [n])).all fun w => noColon w && !tns.contains w && !pyIn "This" w
+  | .simple ⟨_, _, _ :: _⟩ _ _ => false
+  | .templ nss n ps _ =>
+    ps.all (firstLevelOK tns) && headOK tns nss &&
+      (let str := tnToCpp ⟨nss, n, typenames (substTypes tns insts (thisOf icls cpp) ps)⟩
+       (isScopedTemplate tns str).isNone && (indexOf? str tns).isNone && !pyIn "This" str)
+
+
 end WrapModel.Spec
